@@ -414,6 +414,11 @@ func (st *ImmuStore) valueRefFrom(tx, hc uint64, indexedVal []byte) (ValueRef, e
 
 // Resolve ...
 func (v *valueRef) Resolve() (val []byte, err error) {
+	if int64(v.valLen) > int64(v.st.maxValueLen) {
+		// the length is not covered by any hash: a damaged one must not size a buffer
+		return nil, fmt.Errorf("%w: value length exceeds the maximum", ErrCorruptedData)
+	}
+
 	refVal := make([]byte, v.valLen)
 
 	if v.kvmd != nil && v.kvmd.ExpiredAt(time.Now()) {
